@@ -78,6 +78,14 @@ func (u *uploader) Upload(ctx context.Context, records billstat.Records) (err er
 	}
 
 	fail := w.failNext()
+	if ctx.Err() != nil {
+		// As a real uploader, this one does not deliver for a caller whose
+		// context is over.
+		s.Logf("upload#%d invoke@%d: context is done", w.uploads, invoke)
+		w.uploads++
+
+		return fmt.Errorf("uploading records: %w", ctx.Err())
+	}
 	kind := 0
 	if fail {
 		kind = s.T.Choose(5, "upload-error-kind")
@@ -262,6 +270,15 @@ func run(s *kernel.Sim, _, cfg string) {
 			for j := 0; j < n; j++ {
 				s.Yield("before-refresh")
 				rctx := context.WithValue(ctx, refreshCtxKey{}, w.tick())
+				if t.Chance(1, 8, "refresh-context-done") {
+					// The caller's context is over before the refresh begins
+					// (a shutdown, an expired timeout): the upload cannot
+					// succeed, and nothing may be lost.
+					var cancel context.CancelFunc
+					rctx, cancel = context.WithCancel(rctx)
+					cancel()
+					s.Fault("refresh-with-finished-context")
+				}
 				w.inFlight++
 				if w.inFlight > 1 {
 					w.overlapped = true
